@@ -232,6 +232,10 @@ pub struct FilCase {
     /// address family of the three source IPs: 0 IPv4, 1 native IPv6, 2 IPv4-mapped IPv6, 3 one of each
     #[serde(default)]
     pub ip_family: u8,
+    /// the rate limiter is configured without a per-node quota (only total and per-IP): node ids are
+    /// then not limited at all
+    #[serde(default)]
+    pub no_node_quota: bool,
 }
 
 thread_local! {
@@ -271,12 +275,17 @@ pub fn run_filter(c: &FilCase) -> CaseReport {
     // reset the process-global lists (cases run sequentially inside one worker process)
     *PERMIT_BAN_LIST.write() = Default::default();
     let hour = Duration::from_secs(3600);
-    let rl = RateLimiterBuilder::new()
-        .total_n_every(c.total_burst.max(1) as u64, hour)
-        .ip_n_every(c.ip_burst.max(1) as u64, hour)
-        .node_n_every(c.node_burst.max(1) as u64, hour)
-        .build()
-        .expect("quota builds");
+    let rl = if c.no_node_quota {
+        rep.class("filter-without-a-node-quota");
+        RateLimiterBuilder::new().total_n_every(c.total_burst.max(1) as u64, hour).ip_n_every(c.ip_burst.max(1) as u64, hour).build().expect("quota builds")
+    } else {
+        RateLimiterBuilder::new()
+            .total_n_every(c.total_burst.max(1) as u64, hour)
+            .ip_n_every(c.ip_burst.max(1) as u64, hour)
+            .node_n_every(c.node_burst.max(1) as u64, hour)
+            .build()
+            .expect("quota builds")
+    };
     let cfg = FilterConfig {
         enabled: true,
         rate_limiter: Some(rl),
@@ -286,7 +295,7 @@ pub fn run_filter(c: &FilCase) -> CaseReport {
     let ban_duration = if c.ban_1h { Some(hour) } else { None };
     let mut f = VFilter::new(cfg, ban_duration);
     let ipb = c.ip_burst.max(1) as u64;
-    let nb = c.node_burst.max(1) as u64;
+    let nb = if c.no_node_quota { u64::MAX / 4 } else { c.node_burst.max(1) as u64 };
     let tb = c.total_burst.max(1) as u64;
 
     // ledger (order independent)
@@ -596,6 +605,9 @@ pub enum REv {
     Arrive { ip: u8, node: u8, kind: u8 },
     /// the handler expects (or no longer expects) a response from that source: exemption on / off
     Expect { ip: u8, on: bool },
+    /// the node awaits something from ANOTHER port of that IP (an exemption for ip:30304; the judged
+    /// datagrams come from ip:30303 and are not covered by it)
+    ExpectOtherPort { ip: u8, on: bool },
     PermitIp { ip: u8, on: bool },
     BanIp { ip: u8, on: bool },
     PermitNode { node: u8, on: bool },
@@ -663,6 +675,12 @@ async fn run_recv_async(c: &RecvCase, rep: &mut CaseReport) {
                 let src = SocketAddr::new(ip_of(ip), 30303);
                 let mut m = r.expected_responses.write();
                 if on { m.insert(src, 1); } else { m.remove(&src); }
+            }
+            REv::ExpectOtherPort { ip, on } => {
+                let other = SocketAddr::new(ip_of(ip), 30304);
+                let mut m = r.expected_responses.write();
+                if on { m.insert(other, 1); } else { m.remove(&other); }
+                rep.class("receive-path/exemption-for-another-port-of-a-source-ip");
             }
             REv::PruneTick => {
                 tokio::time::sleep(Duration::from_secs(30)).await;
@@ -795,6 +813,7 @@ fn recv_strategy(max: usize) -> BoxedStrategy<RecvCase> {
     let ev = prop_oneof![
         24 => (0u8..3, 0u8..4, prop_oneof![4 => Just(0u8), 4 => Just(1u8), 1 => Just(2u8), 1 => Just(3u8)]).prop_map(|(ip, node, kind)| REv::Arrive { ip, node, kind }),
         2 => (0u8..3, any::<bool>()).prop_map(|(ip, on)| REv::Expect { ip, on }),
+        2 => (0u8..3, prop_oneof![3 => Just(true), 1 => Just(false)]).prop_map(|(ip, on)| REv::ExpectOtherPort { ip, on }),
         1 => (0u8..3, any::<bool>()).prop_map(|(ip, on)| REv::PermitIp { ip, on }),
         1 => (0u8..3, any::<bool>()).prop_map(|(ip, on)| REv::BanIp { ip, on }),
         1 => (0u8..4, any::<bool>()).prop_map(|(node, on)| REv::PermitNode { node, on }),
@@ -855,8 +874,8 @@ fn fil_strategy(max: usize) -> BoxedStrategy<FilCase> {
         1 => (0u8..4, any::<bool>()).prop_map(|(node, on)| FEv::BanNode { node, on }),
         1 => Just(FEv::Prune),
     ];
-    (1u8..=6, 1u8..=6, 1u8..=24, any::<bool>(), prop_oneof![4 => Just(false), 1 => Just(true)], proptest::collection::vec(ev, 1..max), prop_oneof![3 => Just(0u8), 1 => Just(1u8), 2 => Just(2u8), 2 => Just(3u8)])
-        .prop_map(|(ip_burst, node_burst, total_burst, ban_1h, per_ip_features, events, ip_family)| FilCase {
+    (1u8..=6, 1u8..=6, 1u8..=24, any::<bool>(), prop_oneof![4 => Just(false), 1 => Just(true)], proptest::collection::vec(ev, 1..max), prop_oneof![3 => Just(0u8), 1 => Just(1u8), 2 => Just(2u8), 2 => Just(3u8)], prop_oneof![5 => Just(false), 1 => Just(true)])
+        .prop_map(|(ip_burst, node_burst, total_burst, ban_1h, per_ip_features, events, ip_family, no_node_quota)| FilCase {
             ip_burst,
             node_burst,
             total_burst,
@@ -864,6 +883,7 @@ fn fil_strategy(max: usize) -> BoxedStrategy<FilCase> {
             per_ip_features,
             events,
             ip_family,
+            no_node_quota,
         })
         .boxed()
 }
